@@ -248,6 +248,8 @@ def run(ctx):
     ctx.run_rule("L5", lambda c: rule_local_histogram(c, f, "L5"))
     ctx.run_rule("L10", lambda c: rule_vec_forms(c, f, "L10"))
     ctx.run_rule("L11", lambda c: rule_auto_flush(c, f, "L11"))
+    from . import controls
+    ctx.run_rule("L10", lambda c: controls.control_leak_and_instant(c, "L10", "forget"))
     if ctx.tier == "thorough":
         g = ctx.facts("plain")
         ctx.run_rule("L1@plain", lambda c: lc.rule_local_counter(c, g, "L1@plain"))
